@@ -131,10 +131,10 @@ func init() {
 			return x.mkTime(x.F.Add(x.F.BinBV(OpMul, sec, x.F.BV(64, 1000000000)), nsec)), nDone
 		},
 		"time.Since": func(x *Exec, t *Thread, a []Value, c *callCtx) (Value, nativeStatus) {
-			return x.F.Sub(x.readClock(), x.timeNs(a[0])), nDone
+			return nTimeSub(x, t, []Value{x.mkTime(x.readClock()), a[0]}, c)
 		},
 		"time.Until": func(x *Exec, t *Thread, a []Value, c *callCtx) (Value, nativeStatus) {
-			return x.F.Sub(x.timeNs(a[0]), x.readClock()), nDone
+			return nTimeSub(x, t, []Value{a[0], x.mkTime(x.readClock())}, c)
 		},
 		"(time.Duration).String": func(x *Exec, t *Thread, a []Value, c *callCtx) (Value, nativeStatus) { return Str{K: "<duration>"}, nDone },
 		"strings.Join":      nStringsJoin,
@@ -828,6 +828,10 @@ func (x *Exec) timeNs(v Value) *Term {
 	return v.(*StructVal).F[1].(*Term)
 }
 
+// Instants are UNSIGNED 64-bit nanoseconds since the Unix epoch (representable up to the year 2554), clock readings
+// are assumed to lie in [2^60, 2^61] (years 2006..2043): now + d does not wrap for any non-negative Duration, and
+// UnixNano() of an instant beyond 2262 wraps negative exactly as the real one does.
+const clockMin = uint64(1) << 60
 const clockMax = uint64(1) << 61
 
 // readClock returns a fresh reading >= the previous one.
@@ -835,13 +839,13 @@ func (x *Exec) readClock() *Term {
 	if x.P.Cfg.PromptClock {
 		// time only passes when a timer fires (see nNewTimer): one symbolic start instant
 		if x.clock == nil {
-			x.clock = x.F.BV(64, 1<<40)
+			x.clock = x.F.BV(64, clockMin+(1<<40))
 		}
 		return x.clock
 	}
 	if x.P.Cfg.FixedClock {
 		if x.clock == nil {
-			x.clock = x.F.BV(64, 1<<40)
+			x.clock = x.F.BV(64, clockMin+(1<<40))
 		}
 		return x.clock
 	}
@@ -849,11 +853,11 @@ func (x *Exec) readClock() *Term {
 	v := x.F.Var(fmt.Sprintf("now#%d", x.nowCount), 64)
 	x.ndLog = append(x.ndLog, ndEntry{Name: "now", Kind: "clock", Terms: []*Term{v}, W: 64})
 	if x.clock == nil {
-		x.assume(x.F.Cmp(OpSle, x.F.BV(64, 1), v))
+		x.assume(x.F.Cmp(OpUle, x.F.BV(64, clockMin), v))
 	} else {
-		x.assume(x.F.Cmp(OpSle, x.clock, v))
+		x.assume(x.F.Cmp(OpUle, x.clock, v))
 	}
-	x.assume(x.F.Cmp(OpSle, v, x.F.BV(64, clockMax)))
+	x.assume(x.F.Cmp(OpUle, v, x.F.BV(64, clockMax)))
 	x.clock = v
 	return v
 }
@@ -861,14 +865,17 @@ func (x *Exec) readClock() *Term {
 func nTimeAdd(x *Exec, t *Thread, a []Value, c *callCtx) (Value, nativeStatus) {
 	return x.mkTime(x.F.Add(x.timeNs(a[0]), a[1].(*Term))), nDone
 }
+// Sub: plain 64-bit difference. It is exact whenever the two instants are at most MaxInt64 ns apart, which holds for
+// every instant a harness can build (clock readings in [2^60, 2^61] plus at most one Duration); the saturation the
+// real Sub applies beyond that distance is therefore never needed (instants further apart are outside the model).
 func nTimeSub(x *Exec, t *Thread, a []Value, c *callCtx) (Value, nativeStatus) {
 	return x.F.Sub(x.timeNs(a[0]), x.timeNs(a[1])), nDone
 }
 func nTimeBefore(x *Exec, t *Thread, a []Value, c *callCtx) (Value, nativeStatus) {
-	return x.F.Cmp(OpSlt, x.timeNs(a[0]), x.timeNs(a[1])), nDone
+	return x.F.Cmp(OpUlt, x.timeNs(a[0]), x.timeNs(a[1])), nDone
 }
 func nTimeAfter(x *Exec, t *Thread, a []Value, c *callCtx) (Value, nativeStatus) {
-	return x.F.Cmp(OpSlt, x.timeNs(a[1]), x.timeNs(a[0])), nDone
+	return x.F.Cmp(OpUlt, x.timeNs(a[1]), x.timeNs(a[0])), nDone
 }
 func nTimeEqual(x *Exec, t *Thread, a []Value, c *callCtx) (Value, nativeStatus) {
 	return x.F.Eq(x.timeNs(a[0]), x.timeNs(a[1])), nDone
@@ -915,19 +922,19 @@ func nNewTimer(x *Exec, t *Thread, a []Value, c *callCtx) (Value, nativeStatus) 
 			npc := len(x.pc)
 			for _, o := range x.timers {
 				if o != tm && o.armed {
-					x.assume(x.F.Cmp(OpSle, tm.due, o.due))
+					x.assume(x.F.Cmp(OpUle, tm.due, o.due))
 				}
 			}
 			if len(x.pc) > npc && x.check(nil) != Sat {
 				x.end("infeasible", "")
 			}
 			cur := x.readClock()
-			late := x.F.Cmp(OpSlt, cur, tm.due)
+			late := x.F.Cmp(OpUlt, cur, tm.due)
 			x.clock = x.F.Add(x.F.Ite(late, tm.due, cur), x.F.BV(64, 1))
 		} else if !x.P.Cfg.FixedClock {
 			nv := x.readClock()
 			// the channel send happens at or after the due time and the next reading is later still
-			x.assume(x.F.Cmp(OpSlt, tm.due, nv))
+			x.assume(x.F.Cmp(OpUlt, tm.due, nv))
 			if x.check(nil) != Sat {
 				x.end("infeasible", "")
 			}
